@@ -154,6 +154,10 @@ func MakeDataset(rng *rand.Rand, id string, o DatasetOpts) *Dataset {
 		d := WideRows(rng)
 		d.ID = id
 		return d
+	case "dense":
+		d := Dense(rng, o.Rows, 6, 64)
+		d.ID = id
+		return d
 	}
 	if o.MaxCols < 1 {
 		o.MaxCols = 5
@@ -487,6 +491,21 @@ func WideRows(rng *rand.Rand) *Dataset {
 				continue
 			}
 			r[fmt.Sprintf("col%03d", c)] = itoa(rng.Intn(4))
+		}
+		ds.Rows = append(ds.Rows, r)
+	}
+	ds.Index()
+	return ds
+}
+
+// Dense is a crafted dataset with few values and many rows: cols columns, each with card random values, no unique
+// column, so that a few hundred bitmaps hold several MiB of serialised data.
+func Dense(rng *rand.Rand, rows, cols, card int) *Dataset {
+	ds := &Dataset{ID: "dense"}
+	for i := 0; i < rows; i++ {
+		r := oracle.Row{}
+		for c := 0; c < cols; c++ {
+			r["d"+itoa(c)] = itoa(rng.Intn(card))
 		}
 		ds.Rows = append(ds.Rows, r)
 	}
